@@ -736,18 +736,20 @@ def insert_guards(ctx):
         raise Unrecognised('ChannelSlots::insert: make_entry call not found')
     idt = mk[0].args[0]
     res = {'zero': False, 'max': False, 'id': S.show(idt), 'guards': [g[3] for g in mk[0].guards]}
-    cmax = ('field', ('var', 'self', None), 'channel_max')
+    # canonical literals that hold where make_entry is called (negations of the rejecting tests, in any
+    # spelling: `id == 0 || id > max`, `!(1..=max).contains(&id)`, two separate ifs, a helper used with `?`)
+    import canon
+    ids = S.show(idt)
+    lits = []
     for g in mk[0].guards:
-        if g[2] == 'if' and g[1] == 'else' and g[4] is not None:
-            for d in S.disjuncts(g[4]):
-                if d[0] != 'bin':
-                    continue
-                op, l, r = d[1], d[2], d[3]
-                if (op == '==' and ((l == idt and S.show(r) == '0') or (r == idt and S.show(l) == '0'))) or \
-                        (op == '<' and l == idt and S.show(r) == '1'):
-                    res['zero'] = True
-                if (op == '>' and l == idt and S.show(r) == 'self.channel_max') or (op == '<' and r == idt and S.show(l) == 'self.channel_max'):
-                    res['max'] = True
+        if g[2] == 'if' and g[4] is not None and not (len(g) > 5 and g[5] and g[5].get('let')):
+            lits.extend(canon.cond(g[4], g[1] == 'then'))
+    for subj, pred in lits:
+        if (subj, pred) in (('(0 == %s)' % ids, False), ('(%s < 1)' % ids, False), ('(0 < %s)' % ids, True)):
+            res['zero'] = True
+        if (subj, pred) == ('(self.channel_max < %s)' % ids, False):
+            res['max'] = True
+    res['guards'] = [x for g in mk[0].guards for x in S.guard_strs(g)]
     res['error_on_reject'] = [S.show(e.term) for e in events if e.kind == 'ret' and any(g[2] == 'if' and g[1] == 'then' for g in e.guards)]
     return res
 
